@@ -291,6 +291,10 @@ func genX(r *Rand, en *xenv, ty string, d int) *xe {
 		case 4:
 			return &xe{K: "if", Subs: []*xe{genX(r, en, "bool", d-1), genX(r, en, "int", d-1), genX(r, en, "int", d-1)}}
 		case 5:
+			if r.Bool() {
+				// a view whose first parameter is named like a variable of the caller, which a later argument mentions
+				return &xe{K: "call", F: "mix", Subs: []*xe{genX(r, en, "int", d-1), nameE("in1")}}
+			}
 			return &xe{K: "call", F: "inc", Subs: []*xe{genX(r, en, "int", d-1)}}
 		default:
 			return lit(vI(Pick(r, intPool)))
@@ -305,6 +309,9 @@ func genX(r *Rand, en *xenv, ty string, d int) *xe {
 		case 1:
 			return &xe{K: "if", Subs: []*xe{genX(r, en, "bool", d-1), genX(r, en, "str", d-1), genX(r, en, "str", d-1)}}
 		case 2:
+			if r.Bool() {
+				return &xe{K: "call", F: "glue", Subs: []*xe{genX(r, en, "str", d-1), nameE("ins")}}
+			}
 			return &xe{K: "call", F: "cat", Subs: []*xe{genX(r, en, "str", d-1), genX(r, en, "str", d-1)}}
 		default:
 			return lit(vS(Pick(r, strPool)))
@@ -486,13 +493,21 @@ func progExpr(stmts []xstmt) *xe {
 func c10Views() (map[string]*sysl.View, []any) {
 	inc := &xe{K: "bin", Op: "ADD", Subs: []*xe{nameE("n"), lit(vI(1))}}
 	cat := &xe{K: "bin", Op: "ADD", Subs: []*xe{nameE("p"), nameE("q")}}
+	// parameters named like variables of the calling transform (`in1`, `ins`): arguments are evaluated in the
+	// caller's scope, all of them before any parameter is bound
+	mix := &xe{K: "bin", Op: "SUB", Subs: []*xe{nameE("in1"), nameE("k")}}
+	glue := &xe{K: "bin", Op: "ADD", Subs: []*xe{nameE("ins"), nameE("t")}}
 	views := map[string]*sysl.View{
-		"inc": {Param: []*sysl.Param{{Name: "n"}}, Expr: inc.proto(), RetType: &sysl.Type{}},
-		"cat": {Param: []*sysl.Param{{Name: "p"}, {Name: "q"}}, Expr: cat.proto(), RetType: &sysl.Type{}},
+		"inc":  {Param: []*sysl.Param{{Name: "n"}}, Expr: inc.proto(), RetType: &sysl.Type{}},
+		"cat":  {Param: []*sysl.Param{{Name: "p"}, {Name: "q"}}, Expr: cat.proto(), RetType: &sysl.Type{}},
+		"mix":  {Param: []*sysl.Param{{Name: "in1"}, {Name: "k"}}, Expr: mix.proto(), RetType: &sysl.Type{}},
+		"glue": {Param: []*sysl.Param{{Name: "ins"}, {Name: "t"}}, Expr: glue.proto(), RetType: &sysl.Type{}},
 	}
 	js := []any{
 		map[string]any{"name": "inc", "params": []string{"n"}, "body": inc.json()},
 		map[string]any{"name": "cat", "params": []string{"p", "q"}, "body": cat.json()},
+		map[string]any{"name": "mix", "params": []string{"in1", "k"}, "body": mix.json()},
+		map[string]any{"name": "glue", "params": []string{"ins", "t"}, "body": glue.json()},
 	}
 	return views, js
 }
